@@ -87,6 +87,11 @@ func (o OneOfSchema[KeyType]) UnserializeType(data any) (result any, err error) 
 		}
 	}
 
+	if !reflect.TypeOf(o.DiscriminatorFieldNameValue).AssignableTo(reflectedValue.Type().Key()) {
+		return result, &ConstraintError{
+			Message: fmt.Sprintf("Invalid key type for one-of: '%s'", reflectedValue.Type().Key().String()),
+		}
+	}
 	discriminatorValue := reflectedValue.MapIndex(reflect.ValueOf(o.DiscriminatorFieldNameValue))
 	if !discriminatorValue.IsValid() {
 		return result, &ConstraintError{
